@@ -7,6 +7,7 @@ package p_db
 
 import (
 	"bytes"
+	"encoding/json"
 	"fmt"
 	"os"
 	"sort"
@@ -20,6 +21,7 @@ import (
 	leveldbstorage "github.com/spikeekips/mitum/storage/leveldb"
 	"github.com/spikeekips/mitum/util"
 	"github.com/spikeekips/mitum/util/fixedtree"
+	leveldbOpt "github.com/syndtr/goleveldb/leveldb/opt"
 	leveldbStorage "github.com/syndtr/goleveldb/leveldb/storage"
 	"pgregory.net/rapid"
 	"verif/internal/chain"
@@ -290,7 +292,7 @@ func dbNewEnv(o dbEnvOpts) (*dbEnv, error) {
 		e.str = leveldbStorage.NewMemStorage()
 	}
 
-	st, err := leveldbstorage.NewStorage(e.str, nil)
+	st, err := leveldbstorage.NewStorage(e.str, e.ldbOpts())
 	if err != nil {
 		return nil, err
 	}
@@ -333,6 +335,16 @@ func dbNewEnv(o dbEnvOpts) (*dbEnv, error) {
 	return e, nil
 }
 
+// ldbOpts: production opens goleveldb with default options (4 MiB write buffer, allocated and cleared on every open); the
+// mem-storage cases use a small write buffer so that the many reopens stay cheap. File-storage cases use the defaults.
+func (e *dbEnv) ldbOpts() *leveldbOpt.Options {
+	if e.dir != "" {
+		return nil
+	}
+
+	return &leveldbOpt.Options{WriteBuffer: 256 << 10}
+}
+
 func (e *dbEnv) Close() {
 	e.W.Close()
 	_ = e.W.St.Close()
@@ -359,7 +371,7 @@ func (e *dbEnv) Reopen() error {
 		e.str = str
 	}
 
-	st, err := leveldbstorage.NewStorage(e.str, nil)
+	st, err := leveldbstorage.NewStorage(e.str, e.ldbOpts())
 	if err != nil {
 		return errors.WithMessage(err, "reopen storage")
 	}
@@ -682,16 +694,12 @@ func dbDrawBlock(rt *rapid.T, e *dbEnv, big bool) dbPlan {
 	}
 
 	notInState := func() {
-		switch rapid.IntRange(0, 1).Draw(rt, "badKind") {
-		case 0:
-			p.Ops = append(p.Ops, chain.NewFillerOperation(e.label("nofill"), nil, nil, gen.Local(9)))
-			p.Kinds = append(p.Kinds, "emptyfiller")
-		default:
-			// join of a node that is no candidate: processed, not in state
-			n := gen.Local(15)
-			p.Ops = append(p.Ops, chain.JoinOp(e.label("badjoin"), n.Address(), next, append([]base.LocalNode{n}, memberLocals...)))
-			p.Kinds = append(p.Kinds, "badjoin")
-		}
+		// join of a node that is no candidate: pre-processed with a reason, recorded in the block, not in state.
+		// (An operation whose Process() step answers with a reason is dropped by the proposal processor without any record
+		// and a block made only of such operations cannot be built at all - not used here.)
+		n := gen.Local(15)
+		p.Ops = append(p.Ops, chain.JoinOp(e.label("badjoin"), n.Address(), next, append([]base.LocalNode{n}, memberLocals...)))
+		p.Kinds = append(p.Kinds, "badjoin")
 	}
 
 	switch kind {
@@ -1195,6 +1203,20 @@ func (e *dbEnv) marshal(v any, found bool, err error) []byte {
 		return []byte("marshal error: " + err.Error())
 	}
 
+	// the encoder does not sort the keys of Go maps (e.g. the items of a block map): canonical form = keys sorted
+	var x any
+
+	d := json.NewDecoder(bytes.NewReader(b))
+	d.UseNumber()
+
+	if err := d.Decode(&x); err != nil {
+		return b
+	}
+
+	if c, err := json.Marshal(x); err == nil {
+		return c
+	}
+
 	return b
 }
 
@@ -1287,4 +1309,31 @@ func dbShort(b []byte) string {
 	}
 
 	return fmt.Sprintf("%s...(%d bytes)...%s", b[:140], len(b), b[len(b)-60:])
+}
+
+// dbDiffCtx renders both values around their first differing byte.
+func dbDiffCtx(a, b []byte) string {
+	i := 0
+	for i < len(a) && i < len(b) && a[i] == b[i] {
+		i++
+	}
+
+	cut := func(x []byte) string {
+		lo, hi := i-70, i+110
+		if lo < 0 {
+			lo = 0
+		}
+
+		if hi > len(x) {
+			hi = len(x)
+		}
+
+		if lo > hi {
+			lo = hi
+		}
+
+		return fmt.Sprintf("(%d bytes) ...%s...", len(x), x[lo:hi])
+	}
+
+	return fmt.Sprintf("first difference at byte %d\n  before: %s\n  after : %s", i, cut(a), cut(b))
 }
